@@ -256,7 +256,7 @@ def interleave : Nat → List (List Act) → List (Nat × Act)
 
 /-! ## A concrete engine / exchange for the driver: the harness's recording state and plan strategy
 
-Market event = trade `(id, instrument, price)`; the engine records ids (globally and per instrument),
+Market stream event = trade `(id, instrument, price)` or disconnect notice; the engine records ids (globally and per instrument),
 keeps the last price per instrument, a signed position and a cash flow per instrument, and a balance
 per asset (asset `j < k` = base of instrument `j`, asset `k` = quote). The strategy is the harness's
 `PlanStrategy` (`harness/src/bin/c20.rs`): item `(trigger, inst, side, qty)` is sent as a market
@@ -265,11 +265,19 @@ account-side state. The exchange is `MockExchange::open_order` for market orders
 (`exchange/mock/mod.rs:232-345`): Buy debits quote by `price*qty`, Sell debits base by `qty`, an
 insufficient balance rejects. -/
 
+/-- One element of the dataset (`MarketStreamEvent<InstrumentIndex, DataKind>`): an `Item` (trade
+`id` on instrument `inst` at `price`) or, when `marker` is set, a `Reconnecting(exchange)` notice.
+The model's `μ` is the whole stream event type, so `marketOf`, `consumes_all` … count notices like
+any other dataset element. -/
 structure MktEv where
   id : Nat
   inst : Nat
   price : Nat
+  marker : Bool
   deriving DecidableEq, Repr
+
+def MktEv.trade (id inst price : Nat) : MktEv := ⟨id, inst, price, false⟩
+def MktEv.reconnecting (id : Nat) : MktEv := ⟨id, 0, 0, true⟩
 
 inductive Side where
   | buy | sell
@@ -300,7 +308,9 @@ structure MView where
   plan : List PlanItem
   next : Nat
   nMkt : Nat
-  seen : List Nat
+  /-- the market stream as the engine saw it: `some id` = Item (recording GlobalData), `none` =
+  disconnect notice (recording `OnDisconnectStrategy`) -/
+  seen : List (Option Nat)
   instSeen : List (List Nat)
   price : List (Option Nat)
   reqs : List Req
@@ -336,10 +346,15 @@ def stratEmit : Nat → MView → MView × List Req
 
 def modifyAt {β : Type} (l : List β) (i : Nat) (f : β → β) : List β := l.modify i f
 
+/-- `Engine::update_from_market_stream` (engine/mod.rs:300-318): a `Reconnecting` notice only reaches
+the on-disconnect strategy (and the connectivity state, C14); an `Item` updates global and
+instrument data. -/
 def MView.onMarket (v : MView) (m : MktEv) : MView :=
-  { v with nMkt := v.nMkt + 1, seen := v.seen ++ [m.id],
-           instSeen := modifyAt v.instSeen m.inst (· ++ [m.id]),
-           price := v.price.set m.inst (some m.price) }
+  if m.marker then { v with seen := v.seen ++ [none] }
+  else
+    { v with nMkt := v.nMkt + 1, seen := v.seen ++ [some m.id],
+             instSeen := modifyAt v.instSeen m.inst (· ++ [m.id]),
+             price := v.price.set m.inst (some m.price) }
 
 def AView.onAccount (v : AView) : AccEv → AView
   | .snapshot bals => { v with bal := bals }
